@@ -39,6 +39,7 @@ func TestReplay(t *testing.T) {
 	if exp, _ := doc["expect"].(map[string]interface{}); exp != nil && exp["kind"] == "never" {
 		label, _ := exp["label"].(string)
 		seen := false
+		premise := false
 		for seed := uint64(1); seed <= 64 && !seen; seed++ {
 			vrt.Reset()
 			vrt.RandomSeed = seed
@@ -46,8 +47,11 @@ func TestReplay(t *testing.T) {
 			if len(vrt.Notes) == 0 && vrt.Possibles[label] {
 				seen = true
 			}
+			if p, ok := vrt.Premises[label]; !ok || p {
+				premise = true
+			}
 		}
-		if seen {
+		if seen || !premise {
 			fmt.Printf("VRT-NEVER %s observed-true\n", label)
 		} else {
 			fmt.Printf("VRT-NEVER %s never-true\n", label)
